@@ -27,7 +27,7 @@ WRONG12 = {
     "results": [("scalar", "$REF"), ("tuple", {"K": "v"}), ("item-unknown", "$ITEM:nosuch"), ("item-number", "$ITEM:7")],
     "bool": [("str", "maybe"), ("list", [1])],
     "datatype": [("unknown", "Complex"), ("number", 5), ("list", ["Float"])],
-    "tuple": [("scalar", "x"), ("list", [1, 2])],
+    "tuple": [("scalar", "x"), ("list", [1, 2]), ("zero", 0), ("empty-str", "")],   # falsy wrong kinds: seeded change C12-i1
     "path_in": [("missing-file", "nofile.csv"), ("relative-no-wd", "in.csv")],
     "path_out": [("relative-no-wd", "out2.csv")],
     "string": [("list", ["a", "b"]), ("tuple", {"K": "v"})],
@@ -284,7 +284,7 @@ def apply_fault(nodes, fault):
             return {"inapplicable": True}
         extra = [fault["param"], copy.deepcopy(fault["value"])]
         node["args"].insert(pos if fault.get("first", True) else pos + 1, extra)
-        info["line_of"] = "within"
+        info["line_of"] = "dup:" + fault["param"]
     elif kind in ("wrong-output-kind", "fuzzy-swap"):
         cur = getarg(fault["param"])
         if isinstance(cur, list):
@@ -666,6 +666,10 @@ def _generate13(rng, index, tier):
     sc = {"engine": "modelsim", "prop": "C13", "mode": "chaos", "model": model, "faults": faults, "route": route,
           "cell": {k: v for k, v in cell.items() if k != "value"}, "extra": extra, "followups": followups}
     sc.update(sch)
+    if rng.random() < 0.2:
+        # legal metadata on some commands; the grammar lets a value be a number as well as a string (seeded change C13-i1)
+        sc["meta"] = {c["name"]: {"DisplayName": "the " + c["name"], "Year": 2020, "Weight": 0.25}
+                      for c in model["cmds"] if rng.random() < 0.4}
     return sc
 
 
@@ -963,7 +967,8 @@ def run_once(sc, log, res, route, text, csv, fs_faults, actor, exec_faults, libr
 def build_text(sc):
     from .modelsim import program_nodes
     model = sc["model"]
-    nodes = program_nodes(model["cmds"], sc.get("order"), sc.get("argseed", 0), tuple(sc.get("v2_names") or ()))
+    nodes = program_nodes(model["cmds"], sc.get("order"), sc.get("argseed", 0), tuple(sc.get("v2_names") or ()),
+                          sc.get("meta"))
     return nodes
 
 
